@@ -871,7 +871,13 @@ def gen_type(repo, file, name, opts, unit, em):
 # C07: "the same call history produces the same results for every table size and buffer setting" holds because the results are those of
 # the ideal map (C01) and of the iterators (C04), both proved for every bucket count and with no assumption on buffer sizes.
 # C10: "keys returned by iteration convert back to what was put" rests on the iterators returning the stored key bytes (C04).
-DERIVED_FROM = {"C18": {"C15"}, "C16": {"C03"}, "C17": {"C05"}, "C04": {"C05"}, "C15": {"C05"}, "C14": {"C01"}, "C07": {"C01", "C04"}, "C10": {"C04"}}
+# C02: a reopened map has the view it had at the drop because the view is a function of the file bytes - which holds only if every
+# update puts its whole effect into the bytes (C01's postconditions are stated over the bytes). C09: "neighbours are never overwritten"
+# also concerns the in-place rewrites done by del_kt (roots of C05).
+# C03: "flush writes every preceding update" needs dirty_ok to survive every call between the update and the flush, the read-only ones
+# included (their frame, C15, says the dirty flag is unchanged); the same for C16.
+DERIVED_FROM = {"C18": {"C15"}, "C16": {"C03", "C15"}, "C17": {"C05"}, "C04": {"C05"}, "C15": {"C05"}, "C14": {"C01"}, "C07": {"C01", "C04"}, "C10": {"C04"},
+                "C02": {"C01"}, "C09": {"C05"}, "C03": {"C15"}}
 
 def generate(repo, ov, prop=None, canary=False, only=None):
     """prop: property id -> functions serving it are verified, the others become stubs.
